@@ -1,7 +1,84 @@
+(* C05 — Aggregate metrics always equal recomputation from the contracts.
+   Statements only; every proof is [exact lemma].
+
+   [after l] is the store after ANY list of operations l (Model.op: add / revise / renew /
+   fund account / debit account for v1 and v2 contracts, chain updates with arbitrary — also
+   ill-formed — reverts and applies, chain-state reset, recalc), starting from the empty store.
+   Operations that fail (error or panic) leave the store unchanged, as the SQL transaction does. *)
 From HostdBase Require Import Base.
-From HostdContracts Require Import Model Proofs.
-Theorem c05_placeholder : forall s, ops_status1 s s = [].
-Proof. exact placeholder_status. Qed.
-Print Assumptions c05_placeholder.
-Example c05_nonvacuous : ops_status1 Active Active = [].
-Proof. vm_compute; reflexivity. Qed.
+From HostdContracts Require Import Model Lib Inv InvOps ProofsC05.
+Local Open Scope N_scope.
+
+(* Reported counts per status, locked and risked collateral, potential and earned revenue per
+   category = the values recomputed from the contract lists (status counters recounted, the
+   rest as recalcContractMetrics computes it). *)
+Theorem c05_metrics_equal_recomputation : forall l : list op,
+  mets (after l) = recompute (cs1 (after l)) (cs2 (after l)).
+Proof. exact metrics_equal_recomputation. Qed.
+Print Assumptions c05_metrics_equal_recomputation.
+
+(* The same, stat by stat, as the sum of the per-contract contributions ... *)
+Theorem c05_metrics_are_sum_of_contributions : forall (l : list op) (k : mkey),
+  mget (mets (after l)) k = msum1 (cs1 (after l)) k + msum2 (cs2 (after l)) k.
+Proof. exact metrics_are_sum_of_contributions. Qed.
+Print Assumptions c05_metrics_are_sum_of_contributions.
+
+(* ... where active contracts contribute their collateral and usage to 'potential', successful
+   (v2: and renewed) contracts their usage to 'earned', every other status only its counter. *)
+Theorem c05_v1_contribution : forall (c : c1) (k : mkey),
+  contrib1 c k =
+  match s1 c with
+  | Active => match k with KAct => 1 | KLocked => locked1 c | KRisked => uRisk (use1 c)
+                         | KPot r => uget r (use1 c) | _ => 0 end
+  | Successful => match k with KSucc => 1 | KEarn r => uget r (use1 c) | _ => 0 end
+  | Rejected => match k with KRej => 1 | _ => 0 end
+  | Failed => match k with KFail => 1 | _ => 0 end
+  | Pending => 0
+  end.
+Proof. exact v1_contribution. Qed.
+Print Assumptions c05_v1_contribution.
+
+Theorem c05_v2_contribution : forall (c : c2) (k : mkey),
+  contrib2 c k =
+  match s2 c with
+  | A2 => match k with KAct => 1 | KLocked => locked2 c | KRisked => uRisk (use2 c)
+                     | KPot r => uget2 r (use2 c) | _ => 0 end
+  | S2 => match k with KSucc => 1 | KEarn r => uget2 r (use2 c) | _ => 0 end
+  | N2 => match k with KRen => 1 | KEarn r => uget2 r (use2 c) | _ => 0 end
+  | R2 => match k with KRej => 1 | _ => 0 end
+  | F2 => match k with KFail => 1 | _ => 0 end
+  | P2 => 0
+  end.
+Proof. exact v2_contribution. Qed.
+Print Assumptions c05_v2_contribution.
+
+(* The maintainers' recalcContractMetrics would change nothing, at any time. *)
+Theorem c05_recalc_changes_nothing : forall l : list op, recalc (after l) = mets (after l).
+Proof. exact recalc_changes_nothing. Qed.
+Print Assumptions c05_recalc_changes_nothing.
+
+(* No sequence drives a metric below zero: the "negative stat value" guard of metrics.go never
+   fires, whatever operation comes next. *)
+Theorem c05_no_negative_stat_panic : forall (l : list op) (o : op),
+  fst (snd (step (after l) o)) <> CPanic PNegStat.
+Proof. exact no_negative_stat_panic. Qed.
+Print Assumptions c05_no_negative_stat_panic.
+
+(* The invariant is inductive from any consistent state (e.g. right after a migration that ran
+   recalcContractMetrics), not only from the empty store. *)
+Theorem c05_invariant_is_inductive : forall (s : state) (o : op),
+  Inv s -> Inv (fst (step s o)) /\ fst (snd (step s o)) <> CPanic PNegStat.
+Proof. exact invariant_is_inductive. Qed.
+Print Assumptions c05_invariant_is_inductive.
+
+(* non-vacuity: a history with an active v1 contract with usage, a successful v2 contract, an
+   account debit attributed to the v1 contract and a reverted resolution; the metrics are non-zero *)
+Example c05_nonvacuous :
+  let l := [AddV1 1 1 10 1 (mkU 1 2 3 4 5 6 0 7); AddV2 1 1 20 1 (mkU 1 1 1 1 0 0 0 1);
+            Chain [] [((2, 1), mkCh [1] [] [] [] [(1, 0)] [] [] [] [], None)];
+            Fund1 1 9 2 30 2; Debit1 9 (mkU 1 2 3 4 5 6 0 0);
+            Chain [] [((3, 2), mkCh [] [] [1] [] [] [] [1] [] [], None)];
+            Chain [((3, 2), mkCh [] [] [1] [] [] [] [] [] [])] []] in
+  mlist (mets (after l)) = [1; 0; 1; 0; 0; 10; 7; 4; 4; 6; 8; 10; 12; 1; 1; 1; 1; 0; 0]
+  /\ fst (snd (step (after l) (Debit1 9 (mkU 1 0 0 0 0 0 0 0)))) = COk.
+Proof. vm_compute; split; reflexivity. Qed.
